@@ -3,7 +3,7 @@
 // Harness vocabulary.  Under the symbolic executor (gosx) these functions are
 // intercepted by name; the bodies below are what runs in a native replay,
 // where the inputs come from a replay file written by the engine.
-package sets
+package stringclassifier
 
 import (
 	"encoding/json"
